@@ -5,11 +5,16 @@ package props
 import (
 	"bytes"
 	"compress/flate"
+	"context"
 	"fmt"
 	"io"
+	"net/http"
+	"net/url"
 	"strings"
 	"time"
 
+	"github.com/zitadel/saml/pkg/provider"
+	sxmlpkg "github.com/zitadel/saml/pkg/provider/xml"
 	"pgregory.net/rapid"
 
 	"verif/harness/obs"
@@ -399,3 +404,48 @@ func genHistory(t *rapid.T, spec world.Spec, sp int, tweak func(*world.SPSpec), 
 	h.Earlier = &e
 	return h
 }
+
+// apiCallback does what an application with its own login UI does instead of sending the browser to the callback endpoint: it
+// reads the stored request, fills a provider.Response from it and asks Provider.AuthCallbackResponse for the SAML response
+// (or AuthCallbackErrorResponse when that fails). The result comes back as a reply whose body is the marshalled message, so the
+// oracles written for the HTTP endpoint apply unchanged; for the redirect binding the signature the library put into the
+// Response value travels in the X-Api-Signature / X-Api-SigAlg headers.
+func apiCallback(w *world.World, host, id string) (rep obs.Reply) {
+	defer func() {
+		if p := recover(); p != nil {
+			rep.Panic = fmt.Sprint(p)
+		}
+	}()
+	rep.Header = http.Header{}
+	hr := &http.Request{Method: "GET", Host: host, Header: http.Header{}, URL: &url.URL{Path: "/"}}
+	ctx := provider.ContextWithIssuer(context.Background(), w.Provider.IssuerFromRequest(hr))
+	ar, err := w.Store.AuthRequestByID(ctx, id)
+	if err != nil {
+		rep.Status, rep.Body = 500, []byte("failed to get request: "+err.Error())
+		return rep
+	}
+	resp := &provider.Response{ProtocolBinding: ar.GetBindingType(), RelayState: ar.GetRelayState(), AcsUrl: ar.GetAccessConsumerServiceURL(), RequestID: ar.GetAuthRequestID(),
+		Issuer: w.Provider.GetEntityID(ctx), ErrorFunc: func(error) {}}
+	entity, err := w.Store.GetEntityIDByAppID(ctx, ar.GetApplicationID())
+	if err != nil {
+		rep.Status, rep.Body = 500, []byte("failed to get entityID: "+err.Error())
+		return rep
+	}
+	resp.Audience = entity
+	msg, err := w.Provider.AuthCallbackResponse(ctx, ar, resp)
+	if err != nil {
+		msg = w.Provider.AuthCallbackErrorResponse(resp, err.Error(), "failed to create response")
+	}
+	b, merr := sxmlMarshal(msg)
+	if merr != nil {
+		rep.Status, rep.Body = 500, []byte("marshal: "+merr.Error())
+		return rep
+	}
+	rep.Status, rep.Body = 200, b
+	rep.Header.Set("Content-Type", "text/xml")
+	rep.Header.Set("X-Api-Signature", resp.Signature)
+	rep.Header.Set("X-Api-SigAlg", resp.SigAlg)
+	return rep
+}
+
+func sxmlMarshal(v any) ([]byte, error) { return sxmlpkg.Marshal(v) }
